@@ -9,7 +9,7 @@ import (
 	"verif/harness/kit"
 )
 
-var outcomes = []string{"na", "na", "na", "ok", "ok", "ok", "ok", "nil", "rej401", "rej403", "rej418", "rej503", "plain"}
+var outcomes = []string{"na", "na", "na", "ok", "ok", "ok", "ok", "nil", "rej401", "rej403", "rej418", "rej503", "plain", "plainctx", "plaindl"}
 
 var authzKinds = []string{"none", "none", "allow", "allow", "deny", "deny409", "deny401"}
 
@@ -71,7 +71,7 @@ func genVec(t *rapid.T, alts []Alt) Vec {
 		for _, s := range SchemeNames {
 			v[s] = "na"
 		}
-		v[rapid.SampledFrom(SchemeNames).Draw(t, "aim-rej")] = rapid.SampledFrom([]string{"rej401", "rej418", "plain"}).Draw(t, "aim-rej-kind")
+		v[rapid.SampledFrom(SchemeNames).Draw(t, "aim-rej")] = rapid.SampledFrom([]string{"rej401", "rej418", "plain", "plainctx", "plaindl"}).Draw(t, "aim-rej-kind")
 	case 2:
 		a := alts[rapid.IntRange(0, len(alts)-1).Draw(t, "aim-alt")]
 		for _, s := range a.Schemes {
